@@ -339,11 +339,76 @@ def gen_fn(rng, prog, cls_idx, is_init, cache, kw_prob=0.8):
                 given.append(g)
         call = ["call", c, npos, given]
         body.insert(rng.randint(0, len(body)), call)
+        if given and rng.random() < 0.12:
+            # a pop/get of a name that is also hard-coded at the call, before or after it (statement order matters)
+            body.insert(rng.randint(0, len(body)), ["pg", rng.random() < 0.7, rng.choice(given), 0, rng.randrange(4)])
     fn["body"] = body
     return fn
 
 
+def gen_diamond(rng):
+    """Layered multiple inheritance with a common root: root, 2-3 middle classes deriving from it (or from one another),
+    a leaf deriving from two or three of them in random order, sometimes a subclass of the leaf. Every own __init__
+    forwards **kwargs with super(); four in ten classes below the root have no __init__ of their own, so the one they
+    inherit may come from far down the MRO with siblings that define one in between."""
+    prog = {"funcs": [], "classes": [], "order": []}
+    cache = {}
+    pool = OPT + REQ[:1]
+
+    def coop_init(i, always=False):
+        if not always and rng.random() < 0.4:
+            return None
+        params = []
+        for _ in range(rng.choice([1, 1, 2])):
+            nm = rng.choice(pool)
+            if nm not in [p[0] for p in params]:
+                t = rng.randrange(3)
+                params.append([nm, t, None if nm in REQ else [t, rng.randrange(4)]])
+        params.sort(key=lambda p: p[2] is not None)
+        body = []
+        if rng.random() < 0.2:
+            body.append(["pg", True, rng.choice(OPT), 0, rng.randrange(4)])
+        vis, nown = visible_params(prog, ["super"], i, cache)
+        given = [rng.choice(vis)] if vis and rng.random() < 0.2 else []
+        body.append(["call", ["super"], 0, given])
+        return {"params": params, "kw": True, "body": body}
+
+    def add(bases, always=False):
+        i = len(prog["classes"])
+        prog["classes"].append({"bases": bases, "init": None, "meths": []})
+        cache.pop("types", None)
+        if py_mro(prog, i, cache) is None:
+            prog["classes"].pop()
+            cache.pop("types", None)
+            return None
+        prog["classes"][i]["init"] = coop_init(i, always)
+        prog["order"].append(["c", i])
+        return i
+
+    root = add([], always=True)
+    if rng.random() < 0.5:   # a root that does not forward
+        prog["classes"][root]["init"]["kw"] = rng.random() < 0.5
+        prog["classes"][root]["init"]["body"] = []
+    mids = []
+    for _ in range(rng.choice([2, 2, 3])):
+        b = [root] if not mids or rng.random() < 0.8 else [rng.choice(mids)]
+        m = add(b)
+        if m is not None:
+            mids.append(m)
+    leaf = None
+    for _ in range(6):
+        bs = rng.sample(mids, min(len(mids), rng.choice([2, 2, 3])))
+        leaf = add(bs)
+        if leaf is not None:
+            break
+    if leaf is not None and rng.random() < 0.4:
+        add([leaf])
+    return prog
+
+
 def gen_coop(rng):
+    if rng.random() < 0.4:
+        return gen_diamond(rng)
     """Cooperative multiple inheritance: every __init__ takes **kwargs and forwards it with super().__init__, the
     parameters of a sibling are reachable only through the instance's MRO."""
     prog = {"funcs": [], "classes": [], "order": []}
@@ -367,7 +432,9 @@ def gen_coop(rng):
             prog["classes"].append({"bases": [], "init": None, "meths": []})
             cache.pop("types", None)
         c = prog["classes"][i]
-        if rng.random() < 0.85:
+        # three in ten classes inherit __init__: in a diamond the inherited one may come from a class that is NOT the
+        # next one in the instance's MRO (a sibling with its own __init__ sits in between)
+        if rng.random() < 0.7:
             params = []
             for _ in range(rng.choice([0, 1, 1, 2])):
                 nm = rng.choice(pool)
@@ -392,7 +459,72 @@ def gen_coop(rng):
     return prog
 
 
+def gen_libapp(rng):
+    """Library + application: helper functions / helper classes and base classes whose __init__ (or a method it calls
+    through self) forwards **kwargs to a helper, then subclasses that inherit or extend them. prog["lib"] = number of
+    top-level items that make up the library when the program is written to two files (generate() uses it as split)."""
+    prog = {"funcs": [], "classes": [], "order": []}
+    cache = {}
+
+    def plain(nmax=3):
+        return {"params": gen_params(rng, nmax) or [[rng.choice(OPT), 0, [0, rng.randrange(4)]]], "kw": False, "body": []}
+
+    def call(callee, cls_idx):
+        vis, nown = visible_params(prog, callee, cls_idx, cache)
+        npos = 1 if nown and rng.random() < 0.15 else 0
+        given = [rng.choice(vis[npos:])] if vis[npos:] and rng.random() < 0.35 else []
+        return ["call", callee, npos, given]
+
+    def forwarding(cls_idx, callee, nmax=2):
+        body = [call(callee, cls_idx)]
+        if rng.random() < 0.25:
+            body.insert(0, ["pg", True, rng.choice(OPT), 0, rng.randrange(4)])
+        return {"params": gen_params(rng, nmax), "kw": True, "body": body}
+
+    # helpers
+    helpers = []
+    for _ in range(rng.choice([1, 1, 2])):
+        if rng.random() < 0.5:
+            prog["funcs"].append(plain())
+            helpers.append(["func", len(prog["funcs"]) - 1])
+            prog["order"].append(["f", helpers[-1][1]])
+        else:
+            prog["classes"].append({"bases": [], "init": plain(), "meths": []})
+            helpers.append(["class", len(prog["classes"]) - 1])
+            prog["order"].append(["c", helpers[-1][1]])
+    # base classes of the library
+    bases = []
+    for _ in range(rng.choice([1, 1, 2])):
+        i = len(prog["classes"])
+        c = {"bases": [], "init": None, "meths": []}
+        prog["classes"].append(c)
+        cache.pop("types", None)
+        if rng.random() < 0.5:      # __init__ calls the helper itself
+            c["init"] = forwarding(i, rng.choice(helpers))
+        else:                       # __init__ calls self.m0, m0 calls the helper
+            c["meths"].append([0, forwarding(i, rng.choice(helpers), nmax=1)])
+            c["init"] = forwarding(i, ["meth", 0])
+        bases.append(i)
+        prog["order"].append(["c", i])
+    prog["lib"] = len(prog["order"])
+    # the application: subclasses that inherit, extend with super(), or override the method
+    for _ in range(rng.choice([1, 2, 2, 3])):
+        i = len(prog["classes"])
+        pool = bases + list(range(bases[-1] + 1, i))
+        c = {"bases": [rng.choice(pool)], "init": None, "meths": []}
+        prog["classes"].append(c)
+        cache.pop("types", None)
+        if rng.random() < 0.5:
+            c["init"] = forwarding(i, ["super"])
+        if rng.random() < 0.15:
+            c["meths"].append([0, plain(2) if rng.random() < 0.5 else forwarding(i, rng.choice(helpers), nmax=1)])
+        prog["order"].append(["c", i])
+    return prog
+
+
 def gen_prog(rng):
+    if rng.random() < 0.15:
+        return gen_libapp(rng)
     if rng.random() < 0.3:
         return gen_coop(rng)
     prog = {"funcs": [], "classes": [], "order": []}
@@ -461,7 +593,10 @@ def mk_case(rng, prog, target):
     # the split point is anywhere that leaves the target class in the second file
     order = prog["order"]
     pos = order.index(["c", target])
-    if pos >= 1 and rng.random() < 0.4:
+    if "lib" in prog and prog["lib"] <= pos:
+        if rng.random() < 0.8:
+            case["split"] = prog["lib"]
+    elif pos >= 1 and rng.random() < 0.4:
         case["split"] = rng.randint(1, pos)
     return case
 
@@ -504,6 +639,12 @@ def fixed_cases():
     I2 = {"bases": [1], "init": None, "meths": []}
     I3 = {"bases": [2], "init": {"params": [["c", 0, [0, 2]]], "kw": True, "body": [["call", ["super"], 0, []]]}, "meths": []}
     cases.append({"prog": {"funcs": [], "classes": [A, I1, I2, I3], "order": [["c", i] for i in range(4)]}, "target": 3, "masks": [1, 2, 3, 0]})
+    # diamond whose first base inherits __init__ from the root while the second base, later in the MRO, has its own
+    R = {"bases": [], "init": {"params": [["a", 0, [0, 0]]], "kw": False, "body": []}, "meths": []}
+    Pl = {"bases": [0], "init": None, "meths": []}
+    Sc = {"bases": [0], "init": {"params": [["s", 1, [1, 1]], ["b", 1, [1, 0]]], "kw": True, "body": [["call", ["super"], 0, []]]}, "meths": []}
+    Lf = {"bases": [1, 2], "init": {"params": [["t", 2, [2, 1]]], "kw": True, "body": [["call", ["super"], 0, []]]}, "meths": []}
+    cases.append({"prog": {"funcs": [], "classes": [R, Pl, Sc, Lf], "order": [["c", i] for i in range(4)]}, "target": 3, "masks": [1, 2, 3, 0]})
     # programs split over two source files (the split point counts top-level items): inherited code in the second file's
     # classes refers to names that exist only in the library's globals
     F0 = {"params": [["p", 0, [0, 1]], ["q", 2, [2, 0]]], "kw": False, "body": []}
